@@ -340,7 +340,12 @@ def entry(chk: Check):
     oki = bool(inline) and inline[-1][3][0] == "sub" and inline[-1][3][1] == raw and inline[-1][3][2] == ("slice", doff, S.C(None))
     chk.decide(oki, "K-FORMULA", "entry-data-inline", dctx.func, "inline data = raw[data_offset:]", found=S.show(inline[-1][3])[-120:] if inline else "none")
     viaf = taken(True)
-    okv = bool(viaf) and bool(find(viaf[0][3], lambda x: x[0] == "call" and x[1] == ".read")) and "get_file_object" in S.show(viaf[0][3])
+    # the bytes come from `.read(..)` on the file object of this entry: the result of get_file_object(), or - when that look-up
+    # was inlined or shares a helper - an element of the file's file_objects table
+    def from_file_object(x):
+        return x[0] == "call" and x[1] == ".read" and x[2] and bool(find(x[2][0], lambda y: (y[0] == "call" and y[1].endswith("get_file_object"))
+                                                                   or (y[0] == "attr" and y[2] == "file_objects")))
+    okv = bool(viaf) and bool(find(viaf[0][3], from_file_object))
     chk.decide(okv, "K-PROV", "entry-data-file-object", dctx.func, "pointer entries read `size` bytes from their file object")
     # value decoder
     vctx = chk.func(REL, "HyperVStorageKeyTableEntry.value")
@@ -420,19 +425,29 @@ def entry(chk: Check):
     actx = chk.func(REL, "HyperVStorageKeyTableEntry.as_dict")
     oka = False
     fl = [l for l in actx.loops if isinstance(l, ast.For)]
+    # the (key, value) pairs of the result: stores inside a loop over the children, or the element of a returned dict
+    # comprehension; the alternatives of a conditional value are split into their own path conditions and it is evaluated which
+    # one is reached for a Node child and for a leaf child
+    itc = None
+    sites = []
     if fl:
         itc = R.expr(actx, fl[0].iter, actx.cfg.node_of[fl[0]], binds={"__exclude_loop__": fl[0]})
-        okit = itc == S.call(".items", [R.self_attr(ek, "children")])
-        CH = ("iter", itc, 1)
-        # every store, with the alternatives of a conditional value split into their own path conditions; decided by
-        # evaluating which store is reached for a Node child and for a leaf child
-        sites = []
         for st_ in ast.walk(fl[0]):
             if isinstance(st_, ast.Assign) and isinstance(st_.targets[0], ast.Subscript):
                 v = R.expr(actx, st_.value, actx.cfg.node_of[st_])
                 k = R.expr(actx, st_.targets[0].slice, actx.cfg.node_of[st_])
                 for extra, alt in split_alternatives(v):
                     sites.append((k, alt, conds_sym(chk, actx, st_) + list(extra)))
+    else:
+        for o in func_outcomes(chk, actx):
+            if o[0] == "return" and o[3][0] == "comp" and o[3][1] == "dict" and o[3][2][0] == "tuple" and len(o[3][2][1]) == 2:
+                itc = o[3][3]
+                k, v = o[3][2][1]
+                for extra, alt in split_alternatives(v):
+                    sites.append((k, alt, [(c, True) for c in o[3][4]] + list(extra)))
+    if itc is not None:
+        okit = itc == S.call(".items", [R.self_attr(ek, "children")])
+        CH = ("iter", itc, 1)
         TYPE = ("attr", CH, "type")
         oka = okit and bool(sites)
         for tname, tv in KDT.items():
